@@ -5,3 +5,14 @@ import "verif/checker/internal/an"
 
 // Registry maps property id to its rule set.
 var Registry = map[string]func(p *an.Prog, r *an.Report){}
+
+// Thorough is set for the thorough tier: exploration caps that only bound the cost of the quick
+// tier are lifted (more partial-value shapes, more constructor outcomes, deeper caller chains).
+var Thorough bool
+
+func capFor(quick, thorough int) int {
+	if Thorough {
+		return thorough
+	}
+	return quick
+}
